@@ -467,6 +467,19 @@ class BaseModel(metaclass=ModelMetaclass):
         object.__setattr__(new, "__pydantic_fields_set__", set(self.__pydantic_fields_set__))
         return new
 
+    def __copy__(self):
+        return self.model_copy()
+
+    def __deepcopy__(self, memo=None):
+        import copy as _copy
+
+        cls = type(self)
+        new = cls.__new__(cls)
+        object.__setattr__(new, "__dict__", _copy.deepcopy(self.__dict__, memo))
+        object.__setattr__(new, "__pydantic_extra__", _copy.deepcopy(self.__pydantic_extra__, memo))
+        object.__setattr__(new, "__pydantic_fields_set__", set(self.__pydantic_fields_set__))
+        return new
+
     @property
     def model_extra(self):
         return self.__pydantic_extra__
